@@ -588,7 +588,10 @@ func (d *dealerPart) OnSent(w *World, st *StepRec, sr sentRec, exp Exp) *Violati
 			return nil
 		}
 		if c.answered {
+			// nothing reaches the caller; the callee has given up the invocation, so the
+			// router has no reason to remember the call any longer
 			w.st.Label("error_after_final_answer_of_streaming_call")
+			d.finish(c, false)
 			return nil
 		}
 		req := c.req
